@@ -338,13 +338,13 @@ KNOWN_TEXT = {
 }
 
 
-def report_known(run, tags):
+def report_known(run, tags, replay=None):
     for t in tags:
         if t.startswith("F12-") and t not in KNOWN_TEXT:
             for c in t[4:].split("+"):
-                run.known(KNOWN_TEXT["F12-" + c])
+                run.known(KNOWN_TEXT["F12-" + c], replay=replay)
         else:
-            run.known(KNOWN_TEXT[t])
+            run.known(KNOWN_TEXT[t], replay=replay)
 
 
 # ---------------------------------------------------------------- stages
@@ -459,7 +459,7 @@ def main(tier, replay=None):
             run.count("clean_roundtrip")
         for k in known:
             run.count("known_" + k)
-        report_known(run, known)
+        report_known(run, known, replay={"kind": "lattice", "lattice": lat, "beam": beam})
         if bad:
             problems.append((i, bad))
         cases.append((lat, beam, obs))
@@ -468,16 +468,21 @@ def main(tier, replay=None):
     if len(cases) > 1:
         run.sample({"lattice": cases[1][0], "observed": {k: v for k, v in cases[1][2].items() if k != "loaded_skel"}})
 
-    # exact structural correspondence with the Coq model
-    failing = common.run_shards(PID, "struct", PREAMBLE, terms, "c14_check_faithful")
+    # exact structural correspondence with the Coq model.  Which converter model is the faithful one depends on whether finding
+    # F11 (stale element name for a sub-segment child) is still listed as known: since fix 3611d94 in /repo the code IS the
+    # repaired converter [conv]; [conv_buggy] is kept as the model of the code before that fix (the _refuted theorems are about it).
+    f11_known = any(f["id"] == "F11" and f.get("status") == "known" for f in common.load_known_findings(PID))
+    primary, other = ("c14_check_faithful", "c14_check_repaired") if f11_known else ("c14_check_repaired", "c14_check_faithful")
+    failing = common.run_shards(PID, "struct", PREAMBLE, terms, primary)
     model_note = None
-    if failing:
-        failing_rep = common.run_shards(PID, "struct_rep", PREAMBLE, terms, "c14_check_repaired")
+    if failing and f11_known:
+        failing_rep = common.run_shards(PID, "struct_rep", PREAMBLE, terms, other)
         if not failing_rep:
             model_note = "the code now behaves like the REPAIRED converter on every case (finding F11 no longer reproduces); faithful model is stale"
             run.notes.append(model_note)
             run.cov["known_findings_not_reproduced"].append("F11")
             failing = []
+    run.cov["converter_model"] = "conv (repaired; code after fix 3611d94)" if not f11_known else "conv_buggy (code before the fix)"
     run.cov["traces_validated_against_impl"] += len(cases)
     replay_known(run, rows)
     run.cov["tested_only"] = ["JSON text layer (json.dumps / CompactJSONEncoder / json.load) and float <-> text conversion: exercised, not modelled",
